@@ -10,6 +10,7 @@
 package bexpr
 
 import (
+	"regexp"
 	"errors"
 	"fmt"
 	"os"
@@ -240,7 +241,7 @@ func init() {
 		}),
 	)
 	intOrFloat := rSeq(rChoice(rLit("0"), rSeq(rClass(func(r rune) bool { return r >= '1' && r <= '9' }), rStar(digit))), rOpt(rSeq(rLit("."), rPlus(digit))))
-	afterNum := rAnd(rChoice(ws, eof, rLit(")")))
+	afterNum := rAnd(rChoice(ws, eof, rLit(")"), rLit("}"))) // "}" since the fix of D14: a number may end a quantifier body
 	number := rChoice(
 		rAct(rSeq(rOpt(rLit("-")), intOrFloat, rAnd(afterNum)), func(v interface{}, t []byte) (interface{}, error) { return string(t), nil }),
 		rSeq(rOpt(rLit("-")), intOrFloat, rNot(afterNum), rErr("Invalid number literal")),
@@ -506,7 +507,7 @@ func bxvLangCases(fails *[]bxvFailure, stats map[string]int, samples *[]string) 
 	// treat specially, and undecodable bytes - placed where an identifier, a
 	// path segment, an index, a literal, white space or a keyword is expected
 	for _, x := range []string{"\x00", "\x08", "\t", "\n", "\v", "\f", "\r", " ", "\x7f", "\u0080", "\u0085", "\u00a0", "!", "\"", "#", "$", "%", "&", "'", "(", ")", "*", "+", ",", "-", ".", "/", "0", "9", ":", ";", "<", "=", ">", "?", "@",
-		"A", "Z", "[", "\\", "]", "^", "_", "`", "a", "z", "{", "|", "}", "~", "é", "ß", "Ω", "Ж", "中", "\U0001d4b3", "ǅ", "ʰ", "٣", "Ⅳ", "²", "½", "\u0301", "‿", "€", "\u200b", "\u2028", "\ufeff", "\ufffd",
+		"A", "Z", "[", "\\", "]", "^", "_", "`", "a", "z", "{", "|", "}", "~", "é", "ß", "Ω", "Ж", "中", "\U0001d4b3", "ǅ", "ʰ", "٣", "Ⅳ", "²", "½", "\u0301", "‿", "€", "\u200b", "\u2028", "\ufeff", "\ufffd", "\u212a", "\u0130", "\u017f", "\u1e9e", "\uff21", "\uff10",
 		"\U0001F600", "\U0010ffff", "\xff", "\xc3\x28", "\xed\xa0\x80", "\xc0\x80"} {
 		for _, tpl := range []string{"a%s == 1", "%sa == 1", "a.b%s == 1", "a.%s == 1", "a.0%s == 1", "a[\"%s\"] == 1", "a[`%s`] == 1", "\"/a%s\" == 1", "\"/%s\" == 1", "\"/a/%s/b\" == 1", "a == %s", "a == b%s", "a == \"%s\"", "a == \"x%sy\"",
 			"a == `%s`", "a ==%s1", "a == 1%s", "a == 1 %s", "a == 1%s and b == 2", "%s", "a in%s b", "a%sin b", "any%s a as x { x == 1 }", "any a as x%s { x == 1 }", "a is empty%s", "a is%sempty", "(%s a == 1)", "a == 1.%s5", "a == -%s1", "not%s a == 1", "a == 1 and%s b == 2"} {
@@ -534,6 +535,7 @@ func bxvLangCases(fails *[]bxvFailure, stats map[string]int, samples *[]string) 
 // ---- C16: print-then-parse round trip ------------------------------------------------------
 
 type bxvLayout struct {
+	msp    string // mandatory whitespace ("" = one space)
 	sp     string // optional whitespace
 	parens int    // redundant parentheses around every node
 	quote  int    // 0 double, 1 backtick, 2 bare where legal
@@ -557,9 +559,11 @@ func bxvBareOK(s string) bool {
 	return true
 }
 
+var bxvBareNumber = regexp.MustCompile(`^-?(0|[1-9][0-9]*)(\.[0-9]+)?$`)
+
 func bxvRenderLit(s string, l bxvLayout) string {
 	switch {
-	case l.quote == 2 && bxvBareOK(s):
+	case l.quote == 2 && (bxvBareOK(s) || bxvBareNumber.MatchString(s)):
 		return s
 	case l.quote == 1 && !strings.Contains(s, "`") && utf8.ValidString(s):
 		return "`" + s + "`"
@@ -626,6 +630,10 @@ func allDigits(s string) bool {
 
 // render prints a tree; prec: 0 or-level, 1 and-level, 2 not-level
 func bxvRenderTree(e grammar.Expression, l bxvLayout, prec int) string {
+	m := l.msp
+	if m == "" {
+		m = " "
+	}
 	wrap := func(s string, need bool) string {
 		n := l.parens
 		if need && n == 0 {
@@ -638,14 +646,14 @@ func bxvRenderTree(e grammar.Expression, l bxvLayout, prec int) string {
 	}
 	switch n := e.(type) {
 	case *grammar.UnaryExpression:
-		return wrap("not "+bxvRenderTree(n.Operand, l, 2), false)
+		return wrap("not" + m+bxvRenderTree(n.Operand, l, 2), false)
 	case *grammar.BinaryExpression:
 		if n.Operator == grammar.BinaryOpAnd {
 			// chains group to the right: the left operand of and must bind tighter
-			s := bxvRenderTree(n.Left, l, 2) + " and " + bxvRenderTree(n.Right, l, 1)
+			s := bxvRenderTree(n.Left, l, 2) + m + "and" + m + bxvRenderTree(n.Right, l, 1)
 			return wrap(s, prec > 1)
 		}
-		s := bxvRenderTree(n.Left, l, 1) + " or " + bxvRenderTree(n.Right, l, 0)
+		s := bxvRenderTree(n.Left, l, 1) + m + "or" + m + bxvRenderTree(n.Right, l, 0)
 		return wrap(s, prec > 0)
 	case *grammar.MatchExpression:
 		sel := bxvRenderSel(n.Selector.Path, l)
@@ -657,24 +665,24 @@ func bxvRenderTree(e grammar.Expression, l bxvLayout, prec int) string {
 			s = sel + l.sp + "!=" + l.sp + bxvRenderLit(n.Value.Raw, l)
 		case grammar.MatchIn:
 			if l.cont {
-				s = sel + " contains " + bxvRenderLit(n.Value.Raw, l)
+				s = sel + m + "contains" + m + bxvRenderLit(n.Value.Raw, l)
 			} else {
-				s = bxvRenderLit(n.Value.Raw, l) + " in " + sel
+				s = bxvRenderLit(n.Value.Raw, l) + m + "in" + m + sel
 			}
 		case grammar.MatchNotIn:
 			if l.cont {
-				s = sel + " not contains " + bxvRenderLit(n.Value.Raw, l)
+				s = sel + m + "not" + m + "contains" + m + bxvRenderLit(n.Value.Raw, l)
 			} else {
-				s = bxvRenderLit(n.Value.Raw, l) + " not in " + sel
+				s = bxvRenderLit(n.Value.Raw, l) + m + "not" + m + "in" + m + sel
 			}
 		case grammar.MatchIsEmpty:
-			s = sel + " is empty"
+			s = sel + m + "is" + m + "empty"
 		case grammar.MatchIsNotEmpty:
-			s = sel + " is not empty"
+			s = sel + m + "is" + m + "not" + m + "empty"
 		case grammar.MatchMatches:
-			s = sel + " matches " + bxvRenderLit(n.Value.Raw, l)
+			s = sel + m + "matches" + m + bxvRenderLit(n.Value.Raw, l)
 		case grammar.MatchNotMatches:
-			s = sel + " not matches " + bxvRenderLit(n.Value.Raw, l)
+			s = sel + m + "not" + m + "matches" + m + bxvRenderLit(n.Value.Raw, l)
 		}
 		return wrap(s, false)
 	case *grammar.CollectionExpression:
@@ -694,7 +702,7 @@ func bxvRenderTree(e grammar.Expression, l bxvLayout, prec int) string {
 		if n.Op == grammar.CollectionOpAll {
 			op = "all"
 		}
-		s := op + " " + bxvRenderSel(n.Selector.Path, l) + " as " + b + l.sp + "{" + l.sp + bxvRenderTree(n.Inner, l, 0) + l.sp + "}"
+		s := op + m + bxvRenderSel(n.Selector.Path, l) + m + "as" + m + b + l.sp + "{" + l.sp + bxvRenderTree(n.Inner, l, 0) + l.sp + "}"
 		// a quantifier is an alternative of OrExpression only: anywhere else it needs parentheses
 		return wrap(s, prec > 0)
 	}
@@ -720,7 +728,7 @@ func bxvStripSelType(e grammar.Expression) {
 
 func bxvTrees(depth int) []func() grammar.Expression {
 	sels := [][]string{{"a"}, {"a", "b", "0"}, {"x", "k-1"}}
-	lits := []string{"v", "1", "two words", ""}
+	lits := []string{"v", "1", "two words", "", "-0.25", "8080"}
 	var leaves []func() grammar.Expression
 	for si := range sels {
 		for op := grammar.MatchEqual; op <= grammar.MatchNotMatches; op++ {
@@ -790,7 +798,9 @@ func bxvRoundTripCases(fails *[]bxvFailure, stats map[string]int, samples *[]str
 	n := 0
 	thorough := os.Getenv("BXV_TIER") == "thorough"
 	depth := 2
-	layouts := []bxvLayout{{sp: " "}, {sp: "", parens: 0, quote: 1, sel: 1}, {sp: "  ", parens: 1, quote: 2, sel: 3, cont: true}, {sp: "\t", parens: 0, quote: 0, sel: 2}}
+	layouts := []bxvLayout{{sp: " "}, {sp: "", parens: 0, quote: 1, sel: 1}, {sp: "  ", parens: 1, quote: 2, sel: 3, cont: true}, {sp: "\t", parens: 0, quote: 0, sel: 2},
+		// every kind of white space in the mandatory positions too (a bare literal followed by a tab or a line break, keywords separated by them)
+		{msp: "\t", sp: "", quote: 2}, {msp: "\n", sp: "\n", quote: 2, sel: 1}, {msp: "\r\n", sp: " ", quote: 2, cont: true}, {msp: " \t\n", sp: "\r", quote: 0, sel: 3}}
 	if thorough {
 		for _, sp := range []string{"", " ", " \n "} {
 			for p := 0; p <= 1; p++ {
@@ -886,7 +896,7 @@ func bxvRoundTripCases(fails *[]bxvFailure, stats map[string]int, samples *[]str
 
 func bxvSpellingCases(fails *[]bxvFailure, stats map[string]int, samples *[]string) int {
 	n := 0
-	keys := []string{"a", "b1", "0", "12", "01", "007", "x-y", "~1", "~0", "~", "a~b", "A", "é", "a:b", "a|b", "k.dot"}
+	keys := []string{"a", "b1", "0", "12", "01", "007", "x²", "٣", "Ⅷ", "½", "x-y", "~1", "~0", "~", "a~b", "A", "é", "a:b", "a|b", "k.dot"}
 	mkData := func(path []string) interface{} {
 		var d interface{} = "leaf"
 		for i := len(path) - 1; i >= 0; i-- {
@@ -948,20 +958,23 @@ func bxvSpellingCases(fails *[]bxvFailure, stats map[string]int, samples *[]stri
 					}
 					for _, t := range templates {
 						expr := fmt.Sprintf(t, sp)
-						ev, err := CreateEvaluator(expr)
-						if err != nil {
-							continue
-						}
-						n++
-						r, e := ev.Evaluate(d)
-						got := fmt.Sprintf("%s:%v/%v", t, r, e != nil)
-						_ = base
 						// compare against the bracket spelling (always available)
 						ref, _ := spell(path, 1)
 						ev2, err2 := CreateEvaluator(fmt.Sprintf(t, ref))
 						if err2 != nil {
 							continue
 						}
+						ev, err := CreateEvaluator(expr)
+						if err != nil {
+							// the grammar admits this spelling of the path (spell() follows grammar.peg), the bracket spelling is accepted, this one is not
+							n++
+							*fails = append(*fails, bxvFailure{Kind: "mismatch", Expr: expr, Datum: bxvDescribe(d), Got: "rejected: " + err.Error(), Want: "accepted like " + fmt.Sprintf(t, ref)})
+							continue
+						}
+						n++
+						r, e := ev.Evaluate(d)
+						got := fmt.Sprintf("%s:%v/%v", t, r, e != nil)
+						_ = base
 						r2, e2 := ev2.Evaluate(d)
 						want := fmt.Sprintf("%s:%v/%v", t, r2, e2 != nil)
 						if got != want {
@@ -975,6 +988,7 @@ func bxvSpellingCases(fails *[]bxvFailure, stats map[string]int, samples *[]stri
 			}
 		}
 	}
+	stats["spellings"] = n
 	// quantified collection and quantifier body in every spelling
 	d := map[string]interface{}{"a": map[string]interface{}{"b~1": []interface{}{map[string]interface{}{"c": "leaf"}}}}
 	for _, e := range [][2]string{
